@@ -119,7 +119,7 @@ MUTANTS = {
     'c05_gez_add_typo': ('C05', ['ops::Add>::add|unwrap<GreaterEqualZero>'], [
         ('src/util/decimal.rs', '        // GEZ + GEZ will never violate its own constraint\n        GreaterEqualZeroDecimal::try_from(*self + *rhs).unwrap()',
          '        // GEZ + GEZ will never violate its own constraint\n        GreaterEqualZeroDecimal::try_from(*self - *rhs).unwrap()')]),
-    'c05_drop_nonzero_guard': ('C05', ['get_delta_superficial_loss_info|unwrap<Pos>'], [
+    'c05_drop_nonzero_guard': ('C05', ['@sfl_validation|unwrap<Pos>'], [
         ('src/portfolio/bookkeeping/delta_list.rs', '            if !ratio_of_sfl.numerator.is_zero() && !af.registered() {', '            if !af.registered() {')]),
     # ------------------------------------------------------------------ C06
     'c06_trade_year': ('C06', ['R6c|portfolio::cumulative_gains::calc_security_cumulative_capital_gains|year'], [
